@@ -93,107 +93,208 @@ func checkLockTable(c *Ctx, rule string, structs ...string) {
 	}
 }
 
+// ---- who enters a Request into the request server's handle table ----
+//
+// The rules that need "this Request is entered into the table here" do not name the function that does it: an
+// inserter is any module function that updates the map held in RequestServer.openRequests, and a call publishes a
+// Request when its callee is an inserter or a function that passes its own arguments on to one (nextRequest, which
+// draws the handle and registers in one step, or a split reserve/publish pair).
+
+func (p *Program) tableInserters() map[*ssa.Function]bool {
+	if p.inserters != nil {
+		return p.inserters
+	}
+	out := map[*ssa.Function]bool{}
+	for _, fn := range p.LibFuncs() {
+		if fn.Package() != p.Sftp {
+			continue
+		}
+		eachInstr(fn, func(in ssa.Instruction) {
+			mu, ok := in.(*ssa.MapUpdate)
+			if !ok {
+				return
+			}
+			for _, l := range leavesOf(mu.Map) {
+				if l.Kind == leafFieldLoad && l.Field == "openRequests" {
+					out[fn] = true
+				}
+			}
+		})
+	}
+	// one level of wrappers
+	for _, fn := range p.LibFuncs() {
+		if fn.Package() != p.Sftp || out[fn] {
+			continue
+		}
+		eachInstr(fn, func(in ssa.Instruction) {
+			if cc := callOf(in); cc != nil {
+				if f := cc.StaticCallee(); f != nil && out[f] && fn.Signature.Recv() != nil && typeName(fn.Signature.Recv().Type()) == "RequestServer" && fn.Name() != "Serve" && fn.Name() != "packetWorker" {
+					for _, a := range cc.Args {
+						if _, isParam := a.(*ssa.Parameter); isParam && typeName(a.Type()) == "Request" {
+							out[fn] = true
+						}
+					}
+				}
+			}
+		})
+	}
+	p.inserters = out
+	return out
+}
+
+// publishesRequest: the call enters one of its *Request arguments into the handle table; returns that argument.
+func (p *Program) publishesRequest(cc *ssa.CallCommon) ssa.Value {
+	if cc == nil {
+		return nil
+	}
+	f := cc.StaticCallee()
+	if f == nil || !p.tableInserters()[f] {
+		return nil
+	}
+	for _, a := range cc.Args {
+		if typeName(a.Type()) == "Request" {
+			return a
+		}
+	}
+	return nil
+}
+
 func runC11(c *Ctx) {
 	p := c.P
 	pos := func(in ssa.Instruction) string { return p.Pos(in.Pos()) }
 
 	// ---------- R1 handle uniqueness ----------
-	for _, spec := range []struct{ fn, st, lock, table string }{
-		{"(*Server).nextHandle", "Server", "Server.openFilesLock", "openFiles"},
-		{"(*RequestServer).nextRequest", "RequestServer", "RequestServer.mu", "openRequests"},
+	// Stated on the state, not on the functions that happen to hold the code today: the counter only ever advances by
+	// one under the table's exclusive lock; every key entered into the table is the decimal rendering of the counter
+	// read after such an advance (directly, or through the Request's handle field, which is only ever assigned such a
+	// rendering); every insertion happens under the exclusive lock.
+	for _, spec := range []struct{ st, lock, table string }{
+		{"Server", "Server.openFilesLock", "openFiles"},
+		{"RequestServer", "RequestServer.mu", "openRequests"},
 	} {
-		fn := p.Func(spec.fn)
-		if fn == nil {
-			c.missing("R1", spec.fn)
-			continue
-		}
-		c.looked(spec.fn)
 		writes := 0
+		advancers := map[*ssa.Function]*ssa.Store{}
 		for _, a := range p.accessesOf(spec.st, "handleCount") {
-			if !a.Write {
-				continue
-			}
-			if isFreshRoot(a.Root) {
+			if !a.Write || isFreshRoot(a.Root) {
 				continue
 			}
 			writes++
-			good := a.Fn == fn
 			var st *ssa.Store
 			for _, r := range *a.In.(*ssa.FieldAddr).Referrers() {
 				if s, ok := r.(*ssa.Store); ok {
 					st = s
 				}
 			}
-			if good && st != nil {
+			good := false
+			if st != nil {
 				b, ok := st.Val.(*ssa.BinOp)
 				one, isOne := int64(0), false
 				if ok {
 					one, isOne = constInt(b.Y)
 				}
 				good = ok && b.Op == token.ADD && isOne && one == 1 && heldAt(st, a.Root, spec.lock) == "Lock"
+				if good {
+					advancers[a.Fn] = st
+				}
 			}
-			c.check(good, "R1", "write of "+spec.st+".handleCount in "+fnName(a.Fn), pos(a.In), "counter only advances by one, under the table lock", "handle counter written outside "+spec.fn+", not by +1, or without the exclusive lock: handles may repeat")
+			c.looked(fnName(a.Fn))
+			c.check(good, "R1", "write of "+spec.st+".handleCount in "+fnName(a.Fn), pos(a.In), "counter only advances by one, under the table lock", "handle counter not advanced by +1, or without the exclusive lock: handles may repeat")
 		}
 		if writes == 0 {
-			c.bad("R1", spec.st+".handleCount never advanced", p.Pos(fn.Pos()), "the handle counter is never incremented: every handle is the same string")
+			c.bad("R1", spec.st+".handleCount never advanced", "?", "the handle counter is never incremented: every handle is the same string")
 		}
-		// the key stored in the table is strconv.Itoa(handleCount) read after the increment
-		var upd *ssa.MapUpdate
-		eachInstr(fn, func(in ssa.Instruction) {
-			if mu, ok := in.(*ssa.MapUpdate); ok {
-				upd = mu
+		// is v the rendering of the counter as advanced in fn?
+		fromCounter := func(fn *ssa.Function, v ssa.Value, at ssa.Instruction) bool {
+			adv := advancers[fn]
+			if adv == nil || !dominates(adv, at) {
+				return false
 			}
-		})
-		if upd == nil {
-			c.bad("R1", spec.fn+" registers", p.Pos(fn.Pos()), "no insertion into the handle table")
-			continue
-		}
-		okKey := false
-		for _, l := range leavesOf(upd.Key) {
-			if l.Kind == leafCallResult && callIs(l.Call, "strconv.Itoa", "strconv.FormatInt", "strconv.FormatUint") {
-				for _, l2 := range leavesOf(l.Call.Args[0]) {
-					if l2.Kind == leafFieldLoad && l2.Field == "handleCount" {
-						okKey = true
-					}
-					if l2.Kind == leafBinOp {
-						okKey = true // the incremented value itself
-					}
-				}
-			} else if l.Kind == leafFieldLoad && l.Field == "handle" {
-				// r.handle, itself assigned from Itoa in the same function
-				okKey = true
-				found := false
-				eachInstr(fn, func(in ssa.Instruction) {
-					if st, ok := in.(*ssa.Store); ok {
-						if fa, ok := st.Addr.(*ssa.FieldAddr); ok {
-							if _, n, _, _ := fieldOf(fa); n == "handle" {
-								for _, l3 := range leavesOf(st.Val) {
-									if l3.Kind == leafCallResult && callIs(l3.Call, "strconv.Itoa") {
-										found = true
-									}
-								}
-							}
+			for _, l := range leavesOf(v) {
+				if l.Kind == leafCallResult && callIs(l.Call, "strconv.Itoa", "strconv.FormatInt", "strconv.FormatUint") {
+					for _, l2 := range leavesOf(l.Call.Args[0]) {
+						if l2.Kind == leafFieldLoad && l2.Field == "handleCount" || l2.Kind == leafBinOp {
+							return true
 						}
 					}
+				}
+			}
+			return false
+		}
+		// the Request's handle field (request server): only ever assigned a rendering of the advanced counter
+		handleFieldOK := true
+		nHandleStores := 0
+		if spec.st == "RequestServer" {
+			for _, fn := range p.LibFuncs() {
+				if outermost(fn).Package() != p.Sftp {
+					continue
+				}
+				eachInstr(fn, func(in ssa.Instruction) {
+					st, ok := in.(*ssa.Store)
+					if !ok {
+						return
+					}
+					t, name, base, ok := fieldOf(st.Addr)
+					if !ok || typeName(t) != "Request" || name != "handle" || isFreshRoot(func() ssa.Value { r, _ := accessPath(base); return r }()) {
+						return
+					}
+					nHandleStores++
+					good := fromCounter(fn, st.Val, st)
+					if !good {
+						handleFieldOK = false
+					}
+					c.check(good, "R1", "Request.handle assigned in "+fnName(fn), pos(st), "the decimal rendering of the counter just advanced", "a Request's handle is assigned something other than the freshly advanced counter: two requests can carry the same handle")
 				})
-				okKey = found
 			}
 		}
-		c.check(okKey, "R1", spec.fn+" handle is the counter", pos(upd), "the handle is the decimal rendering of the freshly incremented counter", "the handle stored in the table is not derived from the incremented counter")
-		c.check(heldAt(upd, fn.Params[0], spec.lock) == "Lock", "R1", spec.fn+" registers under lock", pos(upd), "insertion under the exclusive lock", "insertion into the handle table without the exclusive lock")
-		// returned handle == key
-		eachInstr(fn, func(in ssa.Instruction) {
-			if r, ok := in.(*ssa.Return); ok && len(r.Results) == 1 && isReturn(in) {
-				same := false
-				kl := leavesOf(upd.Key)
-				rl := leavesOf(r.Results[0])
-				if len(kl) > 0 && len(rl) > 0 {
-					same = kl[0].V == rl[0].V || (kl[0].Kind == leafFieldLoad && rl[0].Kind == leafFieldLoad && kl[0].Field == rl[0].Field) ||
-						(kl[0].Kind == leafCallResult && rl[0].Kind == leafCallResult && kl[0].CallIn == rl[0].CallIn)
-				}
-				c.check(same, "R1", spec.fn+" returns the registered handle", pos(in), "returned handle is the table key", "the handle returned differs from the key stored in the table")
+		nUpd := 0
+		for _, fn := range p.LibFuncs() {
+			if outermost(fn).Package() != p.Sftp {
+				continue
 			}
-		})
+			eachInstr(fn, func(in ssa.Instruction) {
+				upd, ok := in.(*ssa.MapUpdate)
+				if !ok {
+					return
+				}
+				isTable := false
+				for _, l := range leavesOf(upd.Map) {
+					if l.Kind == leafFieldLoad && l.Field == spec.table {
+						isTable = true
+					}
+				}
+				if !isTable {
+					return
+				}
+				nUpd++
+				name := fnName(fn)
+				okKey := fromCounter(fn, upd.Key, upd)
+				if !okKey && spec.st == "RequestServer" {
+					for _, l := range leavesOf(upd.Key) {
+						if l.Kind == leafFieldLoad && l.Field == "handle" && handleFieldOK && nHandleStores > 0 {
+							okKey = true
+						}
+					}
+				}
+				c.check(okKey, "R1", name+" handle is the counter", pos(upd), "the key is the decimal rendering of a freshly advanced counter", "the handle stored in the table is not derived from the advanced counter")
+				c.check(len(fn.Params) > 0 && heldAt(upd, fn.Params[0], spec.lock) == "Lock", "R1", name+" registers under lock", pos(upd), "insertion under the exclusive lock", "insertion into the handle table without the exclusive lock")
+				// a function that hands the handle back returns the key it stored
+				eachInstr(fn, func(in ssa.Instruction) {
+					if r, ok := in.(*ssa.Return); ok && len(r.Results) == 1 && isReturn(in) && r.Results[0].Type().String() == "string" {
+						same := false
+						kl := leavesOf(upd.Key)
+						rl := leavesOf(r.Results[0])
+						if len(kl) > 0 && len(rl) > 0 {
+							same = kl[0].V == rl[0].V || (kl[0].Kind == leafFieldLoad && rl[0].Kind == leafFieldLoad && kl[0].Field == rl[0].Field) ||
+								(kl[0].Kind == leafCallResult && rl[0].Kind == leafCallResult && kl[0].CallIn == rl[0].CallIn)
+						}
+						c.check(same, "R1", name+" returns the registered handle", pos(in), "returned handle is the table key", "the handle returned differs from the key stored in the table")
+					}
+				})
+			})
+		}
+		if nUpd == 0 {
+			c.bad("R1", spec.st+"."+spec.table+" is filled", "?", "no insertion into the handle table found")
+		}
 	}
 
 	// ---------- R2 tables only under their lock ----------
@@ -350,73 +451,117 @@ func runC11(c *Ctx) {
 		c.check(cls != nil && del != nil && cls.Block() == del.Block(), "R4", "RequestServer sweep deletes", p.Pos(rsServe.Pos()), "swept requests are removed from the table", "the sweep closes requests but leaves them in the table")
 	}
 
-	// ---------- R5 failed opens drop their handle ----------
+	// ---------- R5 failed opens drop their handle; R13 a handle is in the table only once it has been issued ----------
+	// Anchored on the event (the call of Request.open / Request.opendir in the worker), not on the helper that
+	// registers: the reply is tested for being a HANDLE; on the other side the request is released before the reply is
+	// handed over; on the HANDLE side it is in the table by then.  R13: it is not in the table *before* the open has
+	// produced that HANDLE — READ and WRITE run on other workers and handles are predictable counters, so a pipelined
+	// READ would find the half-built Request (Method being written by open: a data race) or one whose open then fails.
 	if worker := p.Func("(*RequestServer).packetWorker"); worker != nil {
-		next := p.Func("(*RequestServer).nextRequest")
 		closeReq := p.Func("(*RequestServer).closeRequest")
 		ready := p.Func("(*packetManager).readyPacket")
+		isReady := func(in ssa.Instruction) bool {
+			cc := callOf(in)
+			return cc != nil && cc.StaticCallee() == ready
+		}
 		n := 0
-		for _, site := range callsWhere(worker, func(cc *ssa.CallCommon) bool { return cc.StaticCallee() == next }) {
+		for _, site := range callsWhere(worker, func(cc *ssa.CallCommon) bool {
+			f := cc.StaticCallee()
+			return f != nil && f.Signature.Recv() != nil && typeName(f.Signature.Recv().Type()) == "Request" && (f.Name() == "open" || f.Name() == "opendir")
+		}) {
 			n++
 			key := fmt.Sprintf("open #%d in packetWorker", n)
-			// the type assertion on the reply
+			req := recvOf(callOf(site))
+			isReq := func(x ssa.Value) bool { return x == req || sameRoot(x, req) }
 			var ta *ssa.TypeAssert
 			eachInstr(worker, func(in ssa.Instruction) {
-				if x, ok := in.(*ssa.TypeAssert); ok && x.CommaOk && isPtrToNamed(x.AssertedType, "sshFxpHandlePacket") && dominates(site, x) {
-					// nearest: same case region — the first one dominated by the site and not dominated by a later nextRequest
-					if ta == nil || dominates(ta, x) == false && dominates(x, ta) {
+				x, ok := in.(*ssa.TypeAssert)
+				if !ok || !x.CommaOk || !isPtrToNamed(x.AssertedType, "sshFxpHandlePacket") {
+					return
+				}
+				for _, l := range leavesOfIface(x.X) {
+					if l == site.(ssa.Value) {
 						ta = x
 					}
 				}
 			})
 			if ta == nil {
-				c.bad("R5", key, pos(site), "a handle is registered but the reply is never tested for success: a failed open keeps its handle and its context forever")
+				c.bad("R5", key, pos(site), "the reply of the open is never tested for being a HANDLE: a failed open keeps its handle and its context forever")
 				continue
 			}
-			// the asserted value is the reply of open/opendir on the registered request
-			replyOK := false
-			for _, l := range leavesOfIface(ta.X) {
-				if call, ok := l.(*ssa.Call); ok {
-					nm := calleeName(&call.Call)
-					if nm == "open" || nm == "opendir" {
-						replyOK = true
-					}
-				}
-			}
-			var falseSucc *ssa.BasicBlock
+			var trueSucc, falseSucc *ssa.BasicBlock
 			for _, r := range *ta.Referrers() {
 				if ex, ok := r.(*ssa.Extract); ok && ex.Index == 1 {
 					for _, rr := range *ex.Referrers() {
 						if iff, ok := rr.(*ssa.If); ok {
-							falseSucc = iff.Block().Succs[1]
+							trueSucc, falseSucc = iff.Block().Succs[0], iff.Block().Succs[1]
 						}
 					}
 				}
 			}
-			if falseSucc == nil || !replyOK {
-				c.und("R5", key, pos(ta), "cannot relate the reply test to the open result")
+			if falseSucc == nil {
+				c.und("R5", key, pos(ta), "cannot relate the reply test to a branch")
 				continue
 			}
-			isClose := func(in ssa.Instruction) bool {
-				cc := callOf(in)
-				if cc == nil || cc.StaticCallee() != closeReq {
-					return false
-				}
-				// with the handle returned by this nextRequest
-				for _, l := range leavesOf(argsOf(cc)[0]) {
-					if l.Kind == leafCallResult && l.CallIn == site {
+			publishes := findInstrs(worker, func(in ssa.Instruction) bool {
+				a := p.publishesRequest(callOf(in))
+				return a != nil && isReq(a)
+			})
+			isPublish := func(in ssa.Instruction) bool {
+				for _, x := range publishes {
+					if x == in {
 						return true
 					}
 				}
 				return false
 			}
-			leak := reachFromBlock(falseSucc, func(in ssa.Instruction) bool {
+			isRelease := func(in ssa.Instruction) bool {
 				cc := callOf(in)
-				return cc != nil && cc.StaticCallee() == ready
-			}, isClose)
-			c.check(!leak, "R5", key, pos(ta), "a non-handle reply is preceded by closeRequest of the handle just registered", "a failed open can be answered without releasing the handle (and cancelling the context) registered for it")
+				if cc == nil {
+					return false
+				}
+				if cc.StaticCallee() == closeReq && closeReq != nil {
+					// with the handle of this request: the result of its registration, or its handle field
+					for _, l := range leavesOf(argsOf(cc)[0]) {
+						if l.Kind == leafCallResult && isPublish(l.CallIn) {
+							return true
+						}
+						if l.Kind == leafFieldLoad && l.Field == "handle" && isReq(l.Base) {
+							return true
+						}
+					}
+					return false
+				}
+				if calleeName(cc) == "close" {
+					r := recvOf(cc)
+					return r != nil && isReq(r)
+				}
+				return false
+			}
+			leak := reachFromBlock(falseSucc, isReady, isRelease)
+			c.check(!leak, "R5", key, pos(ta), "a non-handle reply is preceded by the release of the request just built", "a failed open can be answered without releasing the request (and cancelling the context) built for it")
+			// the HANDLE side: in the table when the reply is handed over
+			inTable := false
+			for _, pb := range publishes {
+				if dominates(pb, site) {
+					inTable = true
+				}
+			}
+			if !inTable {
+				inTable = len(publishes) > 0 && !reachFromBlock(trueSucc, isReady, isPublish)
+			}
+			c.check(inTable, "R5", key+" is in the table when its handle is issued", pos(site), "entered into the handle table before the HANDLE reply is handed over", "a successful open is answered with a handle that is not in the handle table: every later request on it fails")
+			// R13
+			early := ""
+			for _, pb := range publishes {
+				if !trueSucc.Dominates(pb.Block()) || len(trueSucc.Preds) != 1 {
+					early = pos(pb)
+				}
+			}
+			c.check(early == "", "R13", key+": the handle is not in the table before it is issued", pos(site), "entered only on the HANDLE side of the reply test",
+				"the Request is entered into the handle table (at "+early+") before its open has succeeded: READ and WRITE run on other workers and handles are predictable counters, so a pipelined READ or WRITE naming the handle finds a Request that open is still writing (a data race on Request.Method) or whose open then fails — a handle that was never issued is served")
 		}
-		c.check(n >= 2, "R5", "open sites", p.Pos(worker.Pos()), fmt.Sprintf("%d registration sites", n), "fewer than 2 nextRequest sites (OPEN and OPENDIR)")
+		c.check(n >= 2, "R5", "open sites", p.Pos(worker.Pos()), fmt.Sprintf("%d open sites", n), "fewer than 2 open sites in packetWorker (OPEN and OPENDIR)")
 	}
 
 	// ---------- R6 / R7 ownership of handler objects ----------
@@ -749,7 +894,7 @@ func recvTypeOf(fn *ssa.Function) types.Type {
 func dominatesBlockOrSame(a, b *ssa.BasicBlock) bool { return a == b || a.Dominates(b) }
 
 // requestOwned: is the *Request denoted by v (at instruction `at`) one that somebody will close?  Yes when it came
-// out of the handle table (getRequest), was entered into it (nextRequest) before `at`, or is closed by its creator on
+// out of the handle table (getRequest), was entered into it before `at` (or is on every path after it), or is closed by its creator on
 // every path after `at`; a parameter is owned when that holds at every call site.
 func requestOwned(p *Program, v ssa.Value, at ssa.Instruction, depth int) (bool, string) {
 	if depth > 4 {
@@ -793,23 +938,19 @@ func requestOwned(p *Program, v ssa.Value, at ssa.Instruction, depth int) (bool,
 		}
 	}
 	// a request created here: entered into the table before `at`, or closed after it on every path
-	for _, in := range findInstrs(fn, func(in ssa.Instruction) bool {
-		cc := callOf(in)
-		if cc == nil || calleeName(cc) != "nextRequest" {
-			return false
-		}
-		for _, a := range cc.Args {
-			if isReq(a) {
-				return true
-			}
-		}
-		return false
-	}) {
+	isPublishOfReq := func(in ssa.Instruction) bool {
+		a := p.publishesRequest(callOf(in))
+		return a != nil && isReq(a)
+	}
+	for _, in := range findInstrs(fn, isPublishOfReq) {
 		if dominates(in, at) {
 			return true, ""
 		}
 	}
 	isCloseOfReq := func(in ssa.Instruction) bool {
+		if isPublishOfReq(in) {
+			return true // entered into the table after `at`: the table's sweep owns it from there
+		}
 		cc := callOf(in)
 		if cc == nil || calleeName(cc) != "close" {
 			return false
